@@ -117,6 +117,10 @@
 //! encoder.encode(&data, &plugin, &mut session)?;
 //! ```
 
+#[cfg(feature = "verif")]
+#[allow(unused_imports)]
+use qbice_verif_rt::{std, crossbeam_channel, parking_lot};
+
 use std::{
     any::Any,
     borrow::Borrow,
